@@ -42,6 +42,10 @@ class C10(F.Spec):
             yield self.quick_retarget(rng, i)
         for i in range(n // 6):
             yield self.config_margin(rng, i)
+        for i in range(n // 10):
+            yield self.mode2_asym(rng, i)
+        for i in range(8 if tier == "quick" else 48):
+            yield self.autocal_rerequest(rng, i)
         for i in range(n // 3):
             yield self.uncalibrated(rng, i)
         for i in range(n // 3):
@@ -186,6 +190,25 @@ class C10(F.Spec):
                                                "cmds": [(g, gt)], "startup": 0, "noshrink": True,
                                                "tags": ["kind:pos", "tilt:%d" % tt, "target:end", "margin:by-config"]})
 
+    def mode2_asym(self, rng, i):
+        """blinds that change position while tilting (mode 2) with very different opening and closing times: the correction for the
+        tilting that ends the task is travelled with the time of ITS direction"""
+        a, b = rng.choice([(10000, 30000), (30000, 10000), (8000, 40000), (40000, 8000)])
+        opening, closing = a, b
+        tms = 2000
+        up = i % 2 == 0
+        p0, t0 = (rng.choice([70, 80, 90]), 0) if up else (rng.choice([10, 20, 30]), 100)
+        g, gt = (rng.choice([40, 50]), 100) if up else (rng.choice([50, 60]), 0)
+        dur = ((opening // 100) << 16) | (closing // 100)
+        ops = ["boot 12345", "board rs1 0", "motor 3 0 %d %d" % (opening, closing), "init", "calllog 1",
+               "rstimes 0 %d %d %d 2" % (opening, closing, tms), "rspos 0 %d %d" % (100 + 100 * p0, 100 + 100 * t0),
+               "rsmargin 0 -1", "physpos 0 %d" % p0, "adv 1500", "msg 110 " + set_value(7, 0, dur, [10 + g, 10 + gt]).hex()]
+        self.run_until_idle(ops, int(max(opening, closing) * 1.5) + 6000)
+        ops += ["physshow 0"]
+        return F.Case("m2asym%d" % i, ops, {"kind": "pos", "tt": 2, "opening": opening, "closing": closing, "tms": tms, "margin": -1, "p0": p0,
+                                            "t0": t0, "cmds": [(g, gt)], "startup": 0, "noshrink": True,
+                                            "tags": ["kind:pos", "tilt:2", "target:mid", "asymmetric-times"]})
+
     def quick_retarget(self, rng, i):
         """requests in quick succession around the 1 s start delay: the shutter is stopped, a target on one side is requested inside
         the delay (its start is deferred), and before that start is due a target on the other side is requested - late enough to
@@ -298,11 +321,12 @@ class C10(F.Spec):
         inter = None
         if rng.random() < 0.3:
             self.run_until_idle(ops, rng.randint(1, max(2, budget // 2000)) * 1000, 1000)
-            inter = rng.choice(["stop", "recal", "task", "down"])
+            inter = rng.choice(["stop", "recal", "recal", "task", "down"])
             if inter == "stop":
                 ops.append("msg 110 " + set_value(8, 0, 0, [0]).hex())
             elif inter == "recal":
-                ops.append("msg 460 " + calcfg(1, 0, 8000, 1, 1000, struct.pack("<ii", 0, 0)).hex())
+                # (both forms of the request: with the settings structure and without data)
+                ops.append("msg 460 " + (calcfg(1, 0, 8000, 1, 1000, struct.pack("<ii", 0, 0)) if rng.random() < .5 else calcfg(1, 0, 8000, 1, 0, b"")).hex())
             elif inter == "task":
                 ops.append("msg 110 " + set_value(8, 0, 0, [10 + rng.randint(0, 100)]).hex())
             else:
@@ -312,6 +336,22 @@ class C10(F.Spec):
         return F.Case("autocal%d" % i, ops, {"kind": "autocal", "sensor": sensor, "up_ms": up_ms, "down_ms": down_ms, "startup": startup,
                                              "inter": inter, "target": g, "noshrink": True,
                                              "tags": ["kind:autocal", "sensor:%d" % sensor, "inter:%s" % inter]})
+
+    def autocal_rerequest(self, rng, i):
+        """an auto-calibration is requested again (the form without data) at eight instants spread over the run - in its first, second
+        and third step: it starts over and ends with plausible times or with the failure flag"""
+        up_ms = down_ms = rng.choice([3000, 5000])
+        ops = ["boot 12345", "board rs1 0", "relflags 0 0 %d" % (AUTOCAL | RECAL), "relflags 1 0 %d" % (AUTOCAL | RECAL),
+               "motor 3 0 %d %d" % (up_ms, down_ms), "init", "calllog 1", "rstimes 0 0 0 0 0", "rspos 0 0 0", "physpos 0 40", "adv 1500",
+               "msg 460 " + calcfg(1, 0, 8000, 1, 0, b"").hex()]
+        total = 2 * up_ms + down_ms + 3000
+        self.run_until_idle(ops, int(total * ((i % 8) + 0.5) / 8.0) // 100 * 100, 100)
+        ops.append("msg 460 " + calcfg(1, 0, 8000, 1, 0, b"").hex())
+        self.run_until_idle(ops, 3 * (up_ms + down_ms) + 20000, 1000)
+        ops.append("physshow 0")
+        return F.Case("acagain%d" % i, ops, {"kind": "autocal", "sensor": 3, "up_ms": up_ms, "down_ms": down_ms, "startup": 0,
+                                             "inter": "recal", "target": 0, "noshrink": True,
+                                             "tags": ["kind:autocal", "sensor:3", "inter:recal-again"]})
 
     def ticks(self, rng, i):
         """roller shutter, constant sensor, hand-driven accounting callbacks: every callback is replayed through the Lean task model"""
@@ -639,7 +679,14 @@ class C10(F.Spec):
                         # tilting itself moves the position in mode 2; modes 1/3 keep it (a re-target without a tilt
                         # keeps the tilt of the task it replaces)
                         if me["tt"] == 2:
-                            tol += (int(100.0 * me["tms"] / min(me["opening"], me["closing"])) + 1) * (sum(1 for c in me["cmds"] if c[0] == -1) + 1)
+                            corr = min(me["opening"], me["closing"])
+                            if len(me["cmds"]) == 1 and me["opening"] != me["closing"] and g != me["p0"] and \
+                                    "asymmetric-times" in me.get("tags", []):
+                                # (only for the family built for it: mid-range targets, start tilt at the end the travel leaves it at)
+                                # one command: the tilting that ends the task runs against the main travel (up, then the slats are
+                                # turned down with the closing time - and the other way round): that is the travel it causes
+                                corr = me["closing"] if g < me["p0"] else me["opening"]
+                            tol += (int(100.0 * me["tms"] / corr) + 1) * (sum(1 for c in me["cmds"] if c[0] == -1) + 1)
                     if abs(rp - g) > tol:
                         fs.append(F.Finding("target-missed", "mode %d: target position %d, stored %.2f %% (reported %d)" % (me["tt"], g, (pos - 100) / 100.0, rp)))
                     if me["tt"] and gt is not None and gt >= 0 and not (me["tt"] == 3 and g != 100):
@@ -705,7 +752,8 @@ class C10(F.Spec):
             pos = hist["RsPos"][-1][1] if hist["RsPos"] else 0
             if still_on:
                 fs.append(F.Finding("autocal-motor-left-on", "outputs on at the end of the run (flags %x)" % flags))
-            if me["inter"] is None:
+            if me["inter"] is None or (me["inter"] == "recal" and me["sensor"] == 3):
+                # (a calibration that was requested again while it ran starts over and has to end like any other)
                 ok_times = ao > 0 and ac > 0
                 failed = bool(flags & 0x2)
                 if not ok_times and not failed:
